@@ -4,17 +4,9 @@
      code 2: the implementation's observation differs from the reference semantics
      code 3: the case is outside the checker's precondition (not well_scoped, does not compile,
              outside the domain of the semantics, or too long for the evaluation fuel)
-     code 10: the key function of std.min / max / sorted(_by_key) changed the key set of the table
-             the library function is going through: outside the domain of the semantics (the
-             implementation iterates the live table there; see known_findings.json)
-     code 11: a disagreement on a program of the class [RefScope.leaky] (a captured local that is
-             not the top stack slot when its loop-body scope ends stays open: known finding)
-     code 12: a disagreement on a run in which a Get past the end met a table with a nil key
-     code 13: a disagreement on a program in which a loop variable or closure parameter shadows a
-             visible variable ([RefScope.shadowing], finding R-4)
-     code 14: a disagreement on a run in which the reference semantics stopped with VarNotFound for
-             a never-assigned global (finding R-5: such a global reads nil when a higher slot is
-             assigned)
+   The former classes 10 (R-1), 11 (R-2, RefScope.leaky), 12 (R-3), 13 (R-4, RefScope.shadowing) and
+   14 (R-5) were repaired in the crate (662697a, d723a2c, 6d4c9a8, 53336fc, a526e90): a disagreement
+   on such a program is an ordinary violation (code 2) now.
    Resource errors of the implementation (Timeout, Stackoverflow, CallStackOverflow,
    OutOfMemory) are not predicted: such cases are skipped (the harness counts them). *)
 From Cao Require Export CheckUtil CardAst RefSem RefScope.
@@ -81,12 +73,11 @@ Definition okind_eqb (a b : okind) : bool :=
   end.
 
 Definition is_trnil (t : tree) := match t with TrNil => true | _ => false end.
-(* the host reads globals by name: a global that was never assigned and one that holds nil look
-   the same to it (a slot below the highest assigned one reads as nil), so nil entries are
-   dropped on both sides; the others must agree as sets *)
+(* the host reads globals by name (Vm::read_var_by_name; the harness prints the names that answer
+   Some): since a526e90 a global that was never assigned answers None wherever its slot lies and one
+   that holds nil answers Some(nil), so the two sides must agree as sets, nil entries included *)
 Definition globals_sub (a b : list (str * tree)) : bool :=
-  forallb (fun nv => is_trnil (snd nv) ||
-                     match assoc (fst nv) b with
+  forallb (fun nv => match assoc (fst nv) b with
                      | Some t => tree_eqb (snd nv) t
                      | None => false
                      end) a.
@@ -104,20 +95,13 @@ Definition check1 (c : c01case) : list N :=
       match o with
       | ObsResource _ => []
       | ObsCompileError => [3]
-      | ObsPanic => match eval_program check_fuel m host with
-                    | PUnspec 12 => [10]
-                    | _ => [2]
-                    end
+      | ObsPanic => [2]
       | ObsRun k g l =>
           match eval_program check_fuel m host with
           | PObs o' =>
               (if okind_eqb k (ob_kind o') && globals_agree g (ob_globals o') && log_eqb l (ob_log o')
-               then [] else if leaky m then [11]
-               else if existsb (N.eqb 12) (ob_notes o') then [12]
-               else if shadowing m then [13]
-               else if existsb (N.eqb 14) (ob_notes o') then [14] else [2])
+               then [] else [2])
           | PFuel => [3]
-          | PUnspec 12 => [10]
           | PUnspec _ => [3]
           end
       end
